@@ -42,6 +42,10 @@ func init() {
 	})
 }
 
+// rarely used output options: the bytes written must not depend on the run either
+var c08SVGFlags = [][]string{nil, {"--svg-style", "border: 1px solid red; background: white; margin: 2px; padding: 1px"}, {"--svg-width", "300", "--svg-height", "200"},
+	{"--svg-style", "border: 1px solid red; background: white; margin: 2px; width: 10px; height: 5px", "--svg-width", "300", "--svg-height", "200"}, {"--svg-style", "a: 1; b: 2; c: 3; d: 4; e: 5; f: 6; g: 7", "--svg-width", "64"}}
+
 // observe returns every observable of one execution as one string.
 func c08Observe(src string, seed int64) string {
 	var b strings.Builder
@@ -100,6 +104,9 @@ func c08Case(c *core.Ctx, i int) (string, string) {
 				fmt.Fprintf(&b, "y%d:num\ny%d = \"s\"\n", k, k)
 			case 3:
 				fmt.Fprintf(&b, "nofunc%d %d\n", k, k)
+			}
+			if r.Intn(3) == 0 { // characters the lexer does not know, several different ones
+				fmt.Fprintf(&b, "z%d := %d %s %d\n", k, k, []string{"#", "$", ";", "~", "?", "`", "\u201c", "@", "\\", "&"}[r.Intn(10)], k)
 			}
 		}
 		return b.String(), "several-errors"
@@ -231,7 +238,7 @@ func c08Run(c *core.Ctx, i int) {
 		_ = os.WriteFile(path, []byte(src), 0o644)
 		var ref string
 		for k := 0; k < 4; k++ {
-			stdout, stderr, code, err := evyCmd(c, "5\nx\n\n7\n", "run", "--rand-seed="+cliSeed, "--svg-out", "-", path)
+			stdout, stderr, code, err := evyCmd(c, "5\nx\n\n7\n", append([]string{"run", "--rand-seed=" + cliSeed, "--svg-out", "-"}, append(append([]string{}, c08SVGFlags[i%len(c08SVGFlags)]...), path)...)...)
 			if err != nil {
 				c.Inconclusive("evy run: " + err.Error())
 				break
